@@ -2081,7 +2081,9 @@ class GColl(G):
             elif cc < 8:
                 cmpf = L_("c", ["a", "b"], ("bin", "-", ("var", "b"), ("var", "a")))
             elif cc < 9:
-                cmpf = ("lambda", ["a", "b"], ("block", [("if", ("bin", ">", ("var", "a"), N_(self.i(0, 5))), [("raise", ("call", ("var", "ValueError"), [("str", "cmp")]))], None), ("implicit", ("bin", "-", ("var", "a"), ("var", "b")))]))
+                # (the condition looks at both arguments: which element arrives as a and which as b is the sort's business)
+                kk = N_(self.i(0, 5))
+                cmpf = ("lambda", ["a", "b"], ("block", [("if", ("bin", "||", ("bin", ">", ("var", "a"), kk), ("bin", ">", ("var", "b"), kk)), [("raise", ("call", ("var", "ValueError"), [("str", "cmp")]))], None), ("implicit", ("bin", "-", ("var", "a"), ("var", "b")))]))
             else:
                 # a comparator that counts its calls and fails at the k-th (k <= n - 1, the fewest comparisons any sort
                 # of n elements makes): once it has failed it must not be called again, so the count ends at k
